@@ -165,6 +165,10 @@ def Writer.isWriting (w : Writer) : Bool := w.contentLen != 0 || w.padLen != 0
 def Writer.headBytes (w : Writer) : Bytes :=
   RecordHeader.toBytes { rtype := w.rtype, requestId := w.id, contentLength := w.contentLen, paddingLength := w.padLen }
 
+/-- `Clone for StreamWriter`: same stream and shared transport, no lock, and — since the fix of the clone defect (DESIGN §14.3) — an
+idle header: the remaining lengths of a record the source is in the middle of are NOT inherited. -/
+def Writer.clone (w : Writer) : Writer := { rtype := w.rtype, id := w.id }
+
 /-- the vectored write loop of `poll_write`; `fuel` bounds the iterations (each accepts ≥ 1 byte) -/
 def writeLoop (fuel : Nat) (w : Writer) (head buf : Bytes) (t : Transport) : Writer × Transport × WRes :=
   match fuel with
